@@ -57,7 +57,8 @@ theorem stroke_polyline_emission_shape (e : Env K) (store : Nat → List K) (hfw
   run_emitted e store hfw hj hs he hw0 pt n hn hfar hnf
 
 /-- **`stroke_polyline_covers_rectangles`.**  Complete stroker model, open polyline `pt 0 … pt n`
-(`n ≥ 1` edges), fixed width `w = 2·e.hwFw > 0`, Bevel or Miter join (any miter limit), butt or square
+(`n ≥ 1` edges), fixed width `w = 2·e.hwFw > 0`, Bevel or Miter join (any miter limit) or MiterClip join none of
+whose miters exceeds the limit (part of `Regime`; a clipped MiterClip join is NOT covered), butt or square
 caps (independently), exact arithmetic (`sqrt x ≥ 0`, `sqrt x² = x`; `Line::intersection` with guard
 `eps ≥ 0`), in the no-fold regime `Regime e eps pt n`:
 for every segment `k < n` and every point `q = p_k + s·(p_{k+1} − p_k) + u·perp(t_k)·w/2` of its
@@ -183,7 +184,7 @@ theorem len_of_sq (v : P ℝ) (L : ℝ) (hL : 0 ≤ L) (h : v.sqLen = L ^ 2) : l
   show Real.sqrt _ = L
   rw [h]; exact Real.sqrt_sq hL
 
-theorem exHypJ (lj : LineJoin) (hlj : lj = .bevel ∨ lj = .miter) : CoverHyp (exEnvJ lj) (1 / 10 ^ 8) where
+theorem exHypJ (lj : LineJoin) (hlj : lj = .bevel ∨ lj = .miter ∨ lj = .miterClip) : CoverHyp (exEnvJ lj) (1 / 10 ^ 8) where
   sqrt_nonneg := fun x _ => Real.sqrt_nonneg x
   sqrt_sq := fun x hx => Real.mul_self_sqrt hx
   ix_eq := rfl
@@ -224,7 +225,7 @@ theorem exRegimeJ (lj : LineJoin) : Regime (exEnvJ lj) (1 / 10 ^ 8) exPt 3 := by
     show (2 : ℝ) * half = 1
     have : (half : ℝ) = 1 / 2 := sc_half
     rw [this]; norm_num
-  refine ⟨?_, ?_, ?_, ?_, ?_⟩
+  refine ⟨?_, ?_, ?_, ?_, ?_, ?_⟩
   · intro i hi
     interval_cases i <;>
       (simp [exEnvJ, exPt, pointsAreTooClose, Env.new, squareMergeThreshold, geom]; norm_num)
@@ -253,6 +254,28 @@ theorem exRegimeJ (lj : LineJoin) : Regime (exEnvJ lj) (1 / 10 ^ 8) exPt 3 := by
     · simp only [tauAbs]; norm_num; rw [exL0, exTau0]; norm_num [abs_of_neg]
     · simp only [tauAbs]; norm_num; rw [exL1, exTau0, exTau1]; norm_num [abs_of_neg, abs_of_pos]
     · simp only [tauAbs]; norm_num; rw [exL2, exTau1]; norm_num [abs_of_pos]
+  · -- MiterClip: both miters have squared length `1 + (1/2)² = 5/4 ≤ (2·4)²`: kept
+    intro i hi hmc
+    have hs0 : ∀ x : ℝ, 0 ≤ x → 0 ≤ Transc.sqrt x := fun x _ => Real.sqrt_nonneg x
+    have hs : ∀ x : ℝ, 0 ≤ x → Transc.sqrt x * Transc.sqrt x = x := fun x hx => Real.mul_self_sqrt hx
+    have hml : (exEnvJ lj).o.miterLimit = 4 := rfl
+    interval_cases i
+    · refine keptAt_of_limit _ hs0 hs _ _ _ (by simp only [exPt, geom]; norm_num) (by simp only [exPt, geom]; norm_num)
+        ?_ (Or.inr hmc) ?_
+      · have h1 : (exPt (0 + 1 + 1) - exPt (0 + 1)).sdiv (len (exPt (0 + 1 + 1) - exPt (0 + 1))) = eT exPt 1 := rfl
+        have h0 : (exPt (0 + 1) - exPt 0).sdiv (len (exPt (0 + 1) - exPt 0)) = eT exPt 0 := rfl
+        rw [h1, h0, exT0, exT1, normalEpsilon_eq]; simp only [geom]; norm_num
+      · have h1 : (exPt (0 + 1 + 1) - exPt (0 + 1)).sdiv (len (exPt (0 + 1 + 1) - exPt (0 + 1))) = eT exPt 1 := rfl
+        have h0 : (exPt (0 + 1) - exPt 0).sdiv (len (exPt (0 + 1) - exPt 0)) = eT exPt 0 := rfl
+        rw [h1, h0, exT0, exT1, hml]; simp only [geom]; norm_num
+    · refine keptAt_of_limit _ hs0 hs _ _ _ (by simp only [exPt, geom]; norm_num) (by simp only [exPt, geom]; norm_num)
+        ?_ (Or.inr hmc) ?_
+      · have h1 : (exPt (1 + 1 + 1) - exPt (1 + 1)).sdiv (len (exPt (1 + 1 + 1) - exPt (1 + 1))) = eT exPt 2 := rfl
+        have h0 : (exPt (1 + 1) - exPt 1).sdiv (len (exPt (1 + 1) - exPt 1)) = eT exPt 1 := rfl
+        rw [h1, h0, exT1, exT2, normalEpsilon_eq]; simp only [geom]; norm_num
+      · have h1 : (exPt (1 + 1 + 1) - exPt (1 + 1)).sdiv (len (exPt (1 + 1 + 1) - exPt (1 + 1))) = eT exPt 2 := rfl
+        have h0 : (exPt (1 + 1) - exPt 1).sdiv (len (exPt (1 + 1) - exPt 1)) = eT exPt 1 := rfl
+        rw [h1, h0, exT1, exT2, hml]; simp only [geom]; norm_num
 
 theorem exRegime : Regime exEnv (1 / 10 ^ 8) exPt 3 := exRegimeJ _
 
@@ -298,17 +321,28 @@ example (store : Nat → List ℝ) (s u : ℝ) (hs : 0 ≤ s) (hs1 : s ≤ 1) (h
       ∧ (runEvents (exEnvJ .miter) store (polyEvs exPt 3)).st.out.verts[t.2.2]? = some v3
       ∧ InTri (bandPoint (exPt 1) (exPt 2) ((perp (eT exPt 1)).smul (exEnvJ .miter).hwFw) s u)
           (v1.read.position, v2.read.position, v3.read.position) :=
-  stroke_polyline_covers_rectangles (exEnvJ .miter) _ (exHypJ _ (Or.inr rfl)) store exPt 3 (by norm_num) (exRegimeJ _)
+  stroke_polyline_covers_rectangles (exEnvJ .miter) _ (exHypJ _ (Or.inr (Or.inl rfl))) store exPt 3 (by norm_num) (exRegimeJ _)
     1 (by norm_num) s u hs hs1 hu hu1
 
 example : reachSq (exEnvJ .miter) exPt 3 1 ≤ (exEnvJ .miter).hwFw * (exEnvJ .miter).hwFw * (1 + (1 / 2) ^ 2) := by
-  have := stroke_reach_factor (exEnvJ .miter) _ (exHypJ _ (Or.inr rfl)) exPt 3 1 (by norm_num)
+  have := stroke_reach_factor (exEnvJ .miter) _ (exHypJ _ (Or.inr (Or.inl rfl))) exPt 3 1 (by norm_num)
   have e1 : tauAbs exPt 3 1 = 1 / 2 := by
     simp only [tauAbs]; norm_num; rw [exTau0]; norm_num [abs_of_neg]
   have e2 : tauAbs exPt 3 (1 + 1) = 1 / 2 := by
     simp only [tauAbs]; norm_num; rw [exTau1]; norm_num [abs_of_pos]
   rw [e1, e2] at this
   simpa using this
+
+/-- `LineJoin::MiterClip` whose miters stay within the limit (`keptAt`, part of the regime): covered like `Miter` -/
+example (store : Nat → List ℝ) (s u : ℝ) (hs : 0 ≤ s) (hs1 : s ≤ 1) (hu : -1 ≤ u) (hu1 : u ≤ 1) :
+    ∃ t ∈ (runEvents (exEnvJ .miterClip) store (polyEvs exPt 3)).st.out.tris, ∃ v1 v2 v3 : VData ℝ,
+      (runEvents (exEnvJ .miterClip) store (polyEvs exPt 3)).st.out.verts[t.1]? = some v1
+      ∧ (runEvents (exEnvJ .miterClip) store (polyEvs exPt 3)).st.out.verts[t.2.1]? = some v2
+      ∧ (runEvents (exEnvJ .miterClip) store (polyEvs exPt 3)).st.out.verts[t.2.2]? = some v3
+      ∧ InTri (bandPoint (exPt 0) (exPt 1) ((perp (eT exPt 0)).smul (exEnvJ .miterClip).hwFw) s u)
+          (v1.read.position, v2.read.position, v3.read.position) :=
+  stroke_polyline_covers_rectangles (exEnvJ .miterClip) _ (exHypJ _ (Or.inr (Or.inr rfl))) store exPt 3 (by norm_num)
+    (exRegimeJ _) 0 (by norm_num) s u hs hs1 hu hu1
 
 /-- the hypotheses of `stroke_polyline_emission_shape` hold for the example (they are part of `exRegime`) -/
 example (store : Nat → List ℝ) : Emitted exEnv exPt 3 (runEvents exEnv store (polyEvs exPt 3)).st.out :=
